@@ -85,6 +85,13 @@ func Assert(b bool, msg string) {
 		panic("VERIF-ASSERT: " + msg)
 	}
 }
+// Guard: a condition the harness itself relies on (e.g. its template is a valid program). A
+// failed guard is no violation of the property: the path is reported as inconclusive.
+func Guard(b bool, msg string) {
+	if !b {
+		panic("VERIF-GUARD: " + msg)
+	}
+}
 func And(a, b bool) bool     { return a && b }
 func Or(a, b bool) bool      { return a || b }
 func Not(a bool) bool        { return !a }
@@ -199,6 +206,7 @@ type Options struct {
 	Trace     bool
 	KeepPaths int
 	Summarize []string // functions (ssa.Function.String()) summarised instead of inlined
+	StopAfter int      // stop exploring once this many distinct violations are known (0 = explore everything)
 }
 
 // newInterp creates a fresh interpreter state (globals zeroed, no package initialised).
@@ -372,6 +380,13 @@ func (p *Program) Explore(pkgPath, name string, opts Options) *Stats {
 					cond.Wait()
 				}
 				if len(queue) == 0 && active == 0 {
+					mu.Unlock()
+					cond.Broadcast()
+					return
+				}
+				if opts.StopAfter > 0 && len(st.Violations) >= opts.StopAfter {
+					// the verdict is known; the rest of the exploration would only repeat it
+					queue = nil
 					mu.Unlock()
 					cond.Broadcast()
 					return
